@@ -248,6 +248,8 @@ type c19BmpWorld struct {
 	// path identifier an ADD-PATH neighbour sent with a prefix
 	pathIDs map[string]uint32
 	seq     int
+	// when set, route() builds a route for this prefix (several neighbours announcing one prefix)
+	forcePrefix *netip.Prefix
 }
 
 func (w *c19BmpWorld) note(n *c19Nbr, prefix string, as []uint32) {
@@ -268,11 +270,13 @@ func (w *c19BmpWorld) route(n *c19Nbr) (*table.Path, *apiutil.Path, []uint32, *b
 	six := n.addr.Is6() && !n.addr.Is4In6() && r.chance(70)
 	var pfx netip.Prefix
 	fam := bgp.RF_IPv4_UC
-	if six {
+	if w.forcePrefix != nil {
+		six, pfx = false, *w.forcePrefix
+	} else if six {
 		var a [16]byte
 		binary.BigEndian.PutUint64(a[:], 0x20010db800000000|uint64(w.seq)<<16)
 		pfx, fam = netip.PrefixFrom(netip.AddrFrom16(a), 48), bgp.RF_IPv6_UC
-	} else {
+	} else if w.forcePrefix == nil {
 		pfx = netip.PrefixFrom(netip.AddrFrom4([4]byte{10, byte(w.seq >> 8), byte(w.seq), 0}), 24)
 	}
 	as := []uint32{n.as}
@@ -459,6 +463,9 @@ type c19Session struct {
 	buf      []byte
 	n        int
 	peersUp  map[string]map[string]bool // per-peer-header key -> ADD-PATH families from its Peer Up
+	// the post-policy view the station rebuilds from the Route Monitoring messages of this
+	// session: neighbour key -> prefix -> AS_PATH
+	postView map[string]map[string]string
 	detail   func(extra map[string]any) map[string]any
 	messages []string
 }
@@ -582,6 +589,22 @@ func (ss *c19Session) check(raw []byte) {
 			return
 		}
 		o.stat(fmt.Sprintf("session_rm_peertype%d_A%d_addpath%v", ph.PeerType, asSize, len(ap) > 0), 1)
+		if !locRib && ph.Flags&bmp.BMP_PEER_FLAG_POST_POLICY != 0 {
+			for _, n := range w.nbrs {
+				if n.addr.WithZone("") == ph.PeerAddress && n.as == ph.PeerAS && n.id == ph.PeerBGPID {
+					if ss.postView[n.key()] == nil {
+						ss.postView[n.key()] = map[string]string{}
+					}
+					for _, rt := range routes {
+						if rt.withdraw {
+							delete(ss.postView[n.key()], rt.prefix)
+						} else {
+							ss.postView[n.key()][rt.prefix] = c19AsPathStr(asPath)
+						}
+					}
+				}
+			}
+		}
 		for _, rt := range routes {
 			if rt.withdraw {
 				continue
@@ -622,6 +645,65 @@ func (ss *c19Session) upKeys() []string {
 	}
 	sort.Strings(l)
 	return l
+}
+
+// several neighbours announce ONE prefix; then each of them, at every position of the ribout's
+// cached list, withdraws it and announces the identical path again, one replaces it, all
+// withdraw. After every step the station's post-policy view of that prefix must be the
+// post-policy state the neighbours are in.
+func (ss *c19Session) sharedPrefixHistory() {
+	w := ss.w
+	pfx := netip.MustParsePrefix("10.99.0.0/24")
+	who := []*c19Nbr{w.nbrs[0], w.nbrs[1], w.nbrs[4]}
+	truth := map[string]string{}
+	cur := map[string]*table.Path{}
+	var history []string
+	step := func(what string, n *c19Nbr, p *table.Path) {
+		history = append(history, what+" "+n.name)
+		if p.IsWithdraw {
+			delete(truth, n.key())
+		} else {
+			truth[n.key()] = c19AsPathStr(p.GetAsList())
+		}
+		w.s.notifyPostPolicyUpdateWatcher(n.p, []*table.Path{p})
+		ss.read(-1)
+		for _, m := range who {
+			got, has := ss.postView[m.key()][pfx.String()]
+			want, should := truth[m.key()]
+			if has != should || got != want {
+				w.o.fail("bmp-session-view-differs", ss.detail(map[string]any{"where": "post-policy view of " + pfx.String(), "history": history, "neighbour": m.name,
+					"monitored_rib": map[bool]string{true: want, false: "-"}[should], "station_view": map[bool]string{true: got, false: "-"}[has]}))
+				return
+			}
+		}
+		w.o.stat("session_view_steps", 1)
+	}
+	announce := func(n *c19Nbr, fresh bool) {
+		if fresh || cur[n.key()] == nil {
+			w.forcePrefix = &pfx
+			tp, _, _, _, _ := w.route(n)
+			w.forcePrefix = nil
+			cur[n.key()] = tp
+		}
+		step(map[bool]string{true: "announce", false: "re-announce-identical"}[fresh], n, cur[n.key()])
+	}
+	withdraw := func(n *c19Nbr) { step("withdraw", n, cur[n.key()].Clone(true)) }
+	for _, n := range who {
+		announce(n, true)
+	}
+	for _, i := range []int{1, 2, 0, 1} { // middle, last, first, middle again (now last) of the cached list
+		withdraw(who[i])
+		announce(who[i], false)
+	}
+	announce(who[1], true) // replace
+	withdraw(who[2])
+	withdraw(who[0])
+	announce(who[0], false)
+	announce(who[2], false)
+	for _, n := range who {
+		withdraw(n)
+	}
+	announce(who[2], false)
 }
 
 func c19BmpScenario(t *testing.T, o *vOut, r *vRand, policy api.AddBmpRequest_MonitoringPolicy, drops []int) {
@@ -665,7 +747,7 @@ func c19BmpScenario(t *testing.T, o *vOut, r *vRand, policy api.AddBmpRequest_Mo
 			o.fail("bmp-session-no-reconnect", map[string]any{"policy": policy.String(), "session": si})
 			return
 		}
-		ss := &c19Session{w: w, conn: conn, peersUp: map[string]map[string]bool{}}
+		ss := &c19Session{w: w, conn: conn, peersUp: map[string]map[string]bool{}, postView: map[string]map[string]string{}}
 		ss.detail = func(extra map[string]any) map[string]any {
 			extra["policy"] = policy.String()
 			extra["transport_session"] = si + 1
@@ -680,6 +762,9 @@ func c19BmpScenario(t *testing.T, o *vOut, r *vRand, policy api.AddBmpRequest_Mo
 			continue
 		}
 		ss.read(-1) // initial state of the last session
+		if len(drops) == 0 && (policy == api.AddBmpRequest_MONITORING_POLICY_POST || policy == api.AddBmpRequest_MONITORING_POLICY_ALL) {
+			ss.sharedPrefixHistory()
+		}
 		w.traffic()
 		ss.read(-1)
 		w.traffic()
